@@ -13,10 +13,10 @@ pub fn def() -> CheckDef {
         id: "C07",
         title: "Data flow: inputs, act outputs and workflow outputs follow the scoping rules",
         case,
-        rule: "case = 1..3 concurrent processes of a generated model over the set/code/irq fragment: names a,b declared by the workflow (inputs, also the declared outputs), name y declared by one step; writers (set, script $set, script return value, client options with declared/undeclared/__private keys) and readers (msg params templates, step/branch conditions, terminal outputs) are placed along the flow; every process gets its own start valuation and its own client-supplied values; seeded schedule interleaves the processes. RefEnv (a map per declaring scope) predicts every observed value. non-trivial = at least two writes of different kinds were observed by a later reader; distinct = distinct (scenario hash, schedule hash)",
+        rule: "case = 1..3 concurrent processes of a generated model over the set/code/irq fragment: names a,b declared by the workflow (inputs, also the declared outputs), name y declared by one step; writers (set, script $set, script return value, client options of complete/submit/skip/remove with the declared output, the other workflow name, an undeclared and a __private key) and readers (msg params templates, step/branch conditions, terminal outputs) are placed along the flow; every process gets its own start valuation and its own client-supplied values; seeded schedule interleaves the processes. RefEnv (a map per declaring scope) predicts every observed value. non-trivial = at least two writes of different kinds were observed by a later reader; distinct = distinct (scenario hash, schedule hash)",
         level: "exploration",
-        assumptions: &["every name is declared in at most one enclosing scope (the property's precondition)", "reads of names that no enclosing scope declares are not constrained", "the cut of options to declared outputs is only judged for acts that declare outputs", "monotone simulated clock"],
-        probes: &["probe.set_write", "probe.script_set", "probe.script_return", "probe.client_output", "probe.branch_on_written_value", "probe.step_scope", "probe.multi_process", "probe.private_key"],
+        assumptions: &["every name is declared in at most one enclosing scope (the property's precondition)", "a read of a name that no scope in the reader's ancestry holds (the step-scoped y from outside its step, the start value own<j> of another process) must yield no value", "the cut of options to declared outputs is only judged for acts that declare outputs", "monotone simulated clock"],
+        probes: &["probe.set_write", "probe.script_set", "probe.script_return", "probe.client_output", "probe.branch_on_written_value", "probe.step_scope", "probe.multi_process", "probe.private_key", "probe.finished_by_skip_submit_remove"],
         quick_cases: 3000,
         no_shrink: &["models", "starts"],
     }
@@ -27,7 +27,7 @@ enum Op {
     Set(String, i64),
     ScriptSet(String, String, i64), // name := other + k
     ScriptReturn(String, i64),
-    Irq { key: String, out: String },
+    Irq { key: String, out: String, action: String },
     Reader { key: String },
     Branch { if_id: String, else_id: String, cond: Cond, k_if: String, k_else: String },
 }
@@ -42,7 +42,7 @@ fn gen_ops(rng: &mut vsim::rng::Rng) -> Vec<Op> {
             0 => Op::Set(nm, rng.range(0, 9)),
             1 => Op::ScriptSet(nm, rng.pick(&names).to_string(), rng.range(1, 5)),
             2 => Op::ScriptReturn(nm, rng.range(10, 19)),
-            3 | 4 => Op::Irq { key: format!("k{}", i), out: nm },
+            3 | 4 => Op::Irq { key: format!("k{}", i), out: nm, action: rng.pick(&["complete", "complete", "complete", "submit", "skip", "remove"]).to_string() },
             5 => Op::Reader { key: format!("r{}", i) },
             _ => Op::Branch {
                 if_id: format!("bi{}", i),
@@ -58,8 +58,13 @@ fn gen_ops(rng: &mut vsim::rng::Rng) -> Vec<Op> {
     ops
 }
 
+/// reads a name that may not exist for the reader without failing (a plain `{{ y }}` of an unknown name is an error)
+fn probe_expr(name: &str) -> String {
+    format!("{{{{ typeof {name} === \"undefined\" ? null : {name} }}}}")
+}
+
 fn reader_act(id: &str, key: &str) -> MAct {
-    MAct { id: id.into(), key: key.into(), kind: ActKind::Msg, params: json!({"seen_a": "{{ a }}", "seen_b": "{{ b }}"}), ..Default::default() }
+    MAct { id: id.into(), key: key.into(), kind: ActKind::Msg, params: json!({"seen_a": "{{ a }}", "seen_b": "{{ b }}", "seen_y": probe_expr("y"), "seen_own1": probe_expr("own1"), "seen_own2": probe_expr("own2"), "seen_own3": probe_expr("own3")}), ..Default::default() }
 }
 
 fn build_model(ops: &[Op], step_scope: bool) -> MWorkflow {
@@ -83,7 +88,14 @@ fn build_model(ops: &[Op], step_scope: bool) -> MWorkflow {
             }
             Op::ScriptSet(nm, other, k) => cur.push(MAct { id, kind: ActKind::Code(format!("$set(\"{nm}\", {other} + {k});")), ..Default::default() }),
             Op::ScriptReturn(nm, v) => cur.push(MAct { id, kind: ActKind::Code(format!("return {{ {nm}: {v} }};")), ..Default::default() }),
-            Op::Irq { key, out } => cur.push(MAct { id, key: key.clone(), kind: ActKind::Irq, outputs: vec![out.clone()], ..Default::default() }),
+            Op::Irq { key, out, action } => {
+                cur.push(MAct { id, key: key.clone(), kind: ActKind::Irq, outputs: vec![out.clone()], ..Default::default() });
+                // an act finished by `skip`, `remove` or `submit` ends its step without running the acts that
+                // follow in it (control flow, not this property's subject): such an interrupt is the last act of its step
+                if action != "complete" {
+                    flush(&mut cur, &mut steps);
+                }
+            }
             Op::Reader { key } => cur.push(reader_act(&id, key)),
             Op::Branch { if_id, else_id, cond, k_if, k_else } => {
                 flush(&mut cur, &mut steps);
@@ -158,7 +170,9 @@ fn ref_env(ops: &[Op], a0: i64, b0: i64, supplied: &BTreeMap<String, i64>) -> Ex
             Op::ScriptReturn(n, v) => {
                 env.insert(n.clone(), *v);
             }
-            Op::Irq { key, out } => {
+            Op::Irq { key, out, .. } => {
+                // whatever action finishes the act (complete, submit, skip, remove): its options are cut down to the
+                // declared outputs, which update the declaring scope; the other name in the options changes nothing
                 env.insert(out.clone(), supplied[key]);
             }
             Op::Reader { key } => {
@@ -201,6 +215,8 @@ pub fn case(ctx: &mut CaseCtx) -> CaseOut {
         let mut vars = Map::new();
         vars.insert("a".into(), json!(a0));
         vars.insert("b".into(), json!(b0));
+        // a start value under a name that only this process has (no scope of any other process declares it)
+        vars.insert(format!("own{}", p + 1), json!(7000 + 100 * (p as i64 + 1) + a0));
         starts.push(Start { model: "m".into(), vars, pid: Some(format!("p{}", p + 1)), at_q: 0 });
         per_proc.push((a0, b0, supplied));
     }
@@ -221,6 +237,13 @@ pub fn case(ctx: &mut CaseCtx) -> CaseOut {
     });
     // the client supplies per-process values: drive with a body that answers from the table
     let table = per_proc.clone();
+    let actions: BTreeMap<String, String> = ops.iter().filter_map(|o| if let Op::Irq { key, action, .. } = o { Some((key.clone(), action.clone())) } else { None }).collect();
+    for a in actions.values() {
+        if a != "complete" {
+            ctx.count("probe.finished_by_skip_submit_remove", 1);
+            break;
+        }
+    }
     let rec = ctx.run_with(&sc, move |w| {
         if let Err(e) = w.deploy_all() {
             w.rec.lock().unwrap().rec.panics.push(format!("deploy: {e}"));
@@ -259,13 +282,17 @@ pub fn case(ctx: &mut CaseCtx) -> CaseOut {
                             name = a.outputs.first().cloned().unwrap_or_default();
                         }
                     });
+                    // a name that the workflow declares but this act does not list as its output
+                    let other = if name == "a" { "b" } else { "a" };
+                    o.insert(other.to_string(), json!(9000 + v));
                     o.insert(name, json!(v));
                     o.insert("zz_undeclared".into(), json!(v + 1));
                     o.insert("__private".into(), json!(v + 2));
                 }
             }
+            let action = actions.get(&oa.key).cloned().unwrap_or_else(|| "complete".to_string());
             let engine = w.engine().clone();
-            crate::world::do_action(&engine, &w.rec, &oa.pid, &oa.tid, "complete", &o, &oa.key, "client", true);
+            crate::world::do_action(&engine, &w.rec, &oa.pid, &oa.tid, &action, &o, &oa.key, "client", true);
         }
     });
     let mut out = CaseOut { scenario: Some(sc.clone()), ..Default::default() };
@@ -322,6 +349,32 @@ pub fn case(ctx: &mut CaseCtx) -> CaseOut {
                 let idx = ops.iter().position(|o| matches!(o, Op::Reader { key: k } if k == key)).unwrap_or(0);
                 let last_writer = kinds[..idx].iter().rev().find(|k| **k != "reader" && **k != "branch").cloned().unwrap_or("start_value");
                 v.push(Violation::new("C07", "reader_saw_wrong_value", json!({"last_writer": last_writer, "other_process_value": per_proc.iter().enumerate().any(|(j, o)| j != pi && o.2.values().any(|x| json!(x) == sa || json!(x) == sb))}), format!("process {}: reader {} saw a={} b={}, the scope model says a={} b={}", pid, key, sa, sb, ea, eb)));
+                break;
+            }
+        }
+        // names outside the reader's scope chain: y belongs to step s_scope, own<j> to process j.  Nothing the
+        // reader's own ancestry holds defines them, so no value may show up (never reaches a scope outside the
+        // writer's ancestry; no value crosses into another process)
+        for m in msgs.iter().filter(|m| m.key.starts_with('r') && m.key != "r_scope") {
+            let Some(p) = m.inputs.get("params") else { continue };
+            let mut leaks = vec![];
+            if let Some(y) = p.get("seen_y") {
+                if !y.is_null() {
+                    leaks.push(("step_scoped_name", "y", y.clone()));
+                }
+            }
+            for j in 1..=3usize {
+                if j != pi + 1 {
+                    if let Some(x) = p.get(&format!("seen_own{}", j)) {
+                        if !x.is_null() {
+                            leaks.push(("other_process_start_value", "own", x.clone()));
+                        }
+                    }
+                }
+            }
+            if let Some((what, name, val)) = leaks.first() {
+                ctx.count("probe.leak_seen", 1);
+                v.push(Violation::new("C07", "value_outside_its_scope", json!({"what": what}), format!("process {}: reader {} ({}) saw {}={} although no scope in its ancestry holds that name", pid, m.key, m.nid, name, val)));
                 break;
             }
         }
